@@ -992,6 +992,452 @@ def lib_declist(f):
     return [] if f == '.' else f.split(';')
 
 
+
+# ================================================================================================ Timer.labels cases
+# `with PARENT.time() as t: …; t.labels('a')` / `t.labels(method='GET')` and `T = PARENT.time(); f = T(f); T.labels(…)`.
+# case = {'kind': 'tl', 'decos': [ref…], 'prog': [stmt…], 'out': out, 'clock': […]}
+#   ref  = ['p', m] plain metric | ['P', m] labelled parent | ['c', m, [values]] labelled child
+#   stmt = ['L', up, pos, kw] t.labels on the up-th enclosing with-block's timer | ['D', d, pos, kw] labels on decorator-level timer d
+#        | ['W', ref, swallow, prog, out] with ref.time() as t | ['F', d, swallow, prog, out] call of the function decorated by timer d
+TL_METRICS = [('Summary', ['l']), ('Histogram', ['l', 'm']), ('Gauge', ['l']), ('Summary', []), ('Gauge', [])]
+TL_LNAMES = ['l', 'm', 'zz']
+SIG_TL_OUTCOME = 'C16:timer-labels-outcome'
+SIG_TL_OBS = 'C16:timer-labels-observation'
+SIG_TL_CALL = 'C16:timer-labels-call'
+SIG_TL_CLOCK = 'C16:timer-labels-clock-readings'
+
+
+def tl_kind(m):
+    return 0 if TL_METRICS[m][0] == 'Gauge' else 1
+
+
+def tl_names(m):
+    return [TL_LNAMES.index(n) for n in TL_METRICS[m][1]]
+
+
+def tl_value(v, as_kw=False):
+    """label values reach the library as int or as str: both address the child keyed by str(v)"""
+    return v if v % 2 else str(v)
+
+
+class TLWorld:
+    def __init__(self):
+        import prometheus_client as pc
+        self.m = [getattr(pc, cls)('tl%d' % i, 'd', names, registry=None) for i, (cls, names) in enumerate(TL_METRICS)]
+
+    def obj(self, ref):
+        if ref[0] in ('p', 'P'):
+            return self.m[ref[1]]
+        return self.m[ref[1]].labels(*[str(v) for v in ref[2]])
+
+    def read(self):
+        """{ref key: (count, sum)} for observe-metrics, {ref key: value} for gauges; children and plain metrics"""
+        out = {}
+        for i, (cls, names) in enumerate(TL_METRICS):
+            targets = [(('p', i), self.m[i])] if not names else [(('c', i) + tuple(k), ch) for k, ch in sorted(self.m[i]._metrics.items())]
+            for key, ch in targets:
+                ss = {x.name: x.value for x in ch._child_samples()}
+                out[key] = ss[''] if cls == 'Gauge' else (ss['_count'], ss['_sum'])
+        return out
+
+
+def tl_refkey(ref):
+    return ('p', ref[1]) if ref[0] == 'p' else ('P', ref[1]) if ref[0] == 'P' else ('c', ref[1]) + tuple(str(v) for v in ref[2])
+
+
+def tl_with(metric, body):
+    with metric.time() as t:
+        return body(t)
+
+
+class TLRunner:
+    def __init__(self, case):
+        self.case = case
+        self.w = TLWorld()
+        self.events = []
+        self.objs = {}
+        self.nb = 0
+        self.pending = []
+        self.decos = []
+        self.fns = []
+        for ref in case['decos']:
+            T = self.w.obj(ref).time()
+            self.decos.append(T)
+
+            def dispatch(runner=self):
+                return runner.pending.pop()()
+            self.fns.append(T(dispatch))
+
+    def obj(self, o):
+        if o[1] not in self.objs:
+            self.objs[o[1]] = Obj(o[1]) if o[0] == 'r' else PYCLS[o[2]]('exc %d' % o[1])
+        return self.objs[o[1]]
+
+    def run_prog(self, prog, out, env):
+        for st in prog:
+            self.run_stmt(st, env)
+        if out[0] == 'x':
+            raise self.obj(out)
+        return self.obj(out)
+
+    def run_stmt(self, st, env):
+        if st[0] in ('L', 'D'):
+            timer, key = (env[st[1]][0], ('blk', env[st[1]][1])) if st[0] == 'L' else (self.decos[st[1]], ('deco', st[1]))
+            args = [tl_value(v) for v in st[2]]
+            kwargs = {TL_LNAMES[n]: tl_value(v) for n, v in st[3]}
+            try:
+                r = timer.labels(*args, **kwargs)
+            except BaseException as e:
+                self.events.append(('labels', key, st[2], st[3], ('x', e)))
+                raise
+            self.events.append(('labels', key, st[2], st[3], ('r', r)))
+            return
+        bid = self.nb
+        self.nb += 1
+        form, head, sw, prog, out = st
+        self.events.append(('begin', bid, form, head))
+
+        def body(t):
+            self.events.append(('body', bid))
+            try:
+                r = self.run_prog(prog, out, ([(t, bid)] + env) if form == 'W' else env)
+            except BaseException as e:
+                self.events.append(('bodyend', bid, ('x', e)))
+                raise
+            self.events.append(('bodyend', bid, ('r', r)))
+            return r
+        try:
+            if form == 'W':
+                got = ('r', tl_with(self.w.obj(head), body))
+            else:
+                self.pending.append(lambda: body(None))
+                got = ('r', self.fns[head]())
+        except BaseException as e:
+            got = ('x', e)
+        self.events.append(('end', bid, got))
+        if got[0] == 'x' and not sw:
+            raise got[1]
+
+    def run(self):
+        import prometheus_client.context_managers as cmod
+        saved = cmod.default_timer
+        cmod.default_timer = FakeTimer(self.case['clock'], self.events)
+        try:
+            try:
+                got = ('r', self.run_prog(self.case['prog'], self.case['out'], []))
+            except BaseException as e:
+                got = ('x', e)
+        finally:
+            cmod.default_timer = saved
+        return got
+
+
+def tl_py_labels(ref, pos, kw):
+    """which child `labels(*pos, **kw)` addresses, from the documentation of labels(); None = ValueError"""
+    if ref[0] != 'P':
+        return None                 # no label names / already a child: "can not chain calls to .labels()"
+    names = tl_names(ref[1])
+    if pos and kw:
+        return None
+    if kw:
+        if sorted(n for n, _ in kw) != sorted(names):
+            return None
+        d = dict((n, v) for n, v in kw)
+        return ['c', ref[1], [d[n] for n in names]]
+    if len(pos) != len(names):
+        return None
+    return ['c', ref[1], list(pos)]
+
+
+def tl_oracle(case, events, got, final):
+    """the property on the event log of the REAL run (nothing taken from the Lean model): every timed block / decorated call
+    whose timer refers to an observable metric when the body is done hands on the body's own object, reads the clock once
+    before and once after the body, and observes max(after - before, 0) exactly once on the child addressed by the last
+    labels() call that returned on ITS timer (a decorated call: on the decorator-level timer before the call started); a
+    timer still on a labelled parent raises ValueError at exit and records nothing; labels() returns None."""
+    problems = []
+    deco_ref = [list(r) for r in case['decos']]
+    blk_ref, body_out, t0, t1 = {}, {}, {}, {}
+    expected = {}
+    unl = 0
+    for i, e in enumerate(events):
+        if e[0] == 'begin':
+            blk_ref[e[1]] = list(e[3]) if e[2] == 'W' else list(deco_ref[e[3]])
+        elif e[0] == 'clock':
+            prev = events[i - 1] if i else None
+            if prev and prev[0] == 'begin':
+                t0[prev[1]] = e[1]
+            elif prev and prev[0] == 'bodyend':
+                t1[prev[1]] = e[1]
+            else:
+                problems.append((SIG_TL_CLOCK, 'clock read outside entry/exit of a timed block (after %s)' % (prev[:2] if prev else None,)))
+        elif e[0] == 'labels':
+            cur = blk_ref[e[1][1]] if e[1][0] == 'blk' else deco_ref[e[1][1]]
+            want = tl_py_labels(cur, e[2], e[3])
+            res = e[4]
+            if want is None:
+                if res[0] != 'x' or type(res[1]) is not ValueError:
+                    problems.append((SIG_TL_CALL, 'labels(%s, %s) on a timer referring to %s: ValueError expected, got %r' % (e[2], e[3], cur, res)))
+            else:
+                if res[0] != 'r':
+                    problems.append((SIG_TL_CALL, 'labels(%s, %s) on a timer referring to %s raised %r' % (e[2], e[3], cur, res[1])))
+                elif res[1] is not None:
+                    problems.append((SIG_TL_CALL, 'Timer.labels returned %r, not None' % (res[1],)))
+                if e[1][0] == 'blk':
+                    blk_ref[e[1][1]] = want
+                else:
+                    deco_ref[e[1][1]] = want
+        elif e[0] == 'bodyend':
+            body_out[e[1]] = e[2]
+        elif e[0] == 'end':
+            bid, g = e[1], e[2]
+            ref = blk_ref[bid]
+            b = body_out.get(bid)
+            if b is None or bid not in t0 or bid not in t1:
+                problems.append((SIG_TL_CLOCK, 'block %d: body ran %s, entry reading %s, exit reading %s' % (bid, b is not None, t0.get(bid), t1.get(bid))))
+                continue
+            if ref[0] != 'P':
+                if g[0] != b[0] or g[1] is not b[1]:
+                    problems.append((SIG_TL_OUTCOME, 'block %d on %s: body %s %r, the caller saw %s %r' % (
+                        bid, ref, 'returned' if b[0] == 'r' else 'raised', b[1], 'a return of' if g[0] == 'r' else 'a raise of', g[1])))
+                expected.setdefault(tl_refkey(ref), []).append(max(t1[bid] - t0[bid], 0))
+            else:
+                unl += 1
+                if g[0] != 'x' or type(g[1]) is not ValueError or g[1] is b[1]:
+                    problems.append((SIG_TL_OUTCOME, 'block %d: timer still on labelled parent %s at exit: ValueError expected, caller saw %r' % (bid, ref, g)))
+    # the metrics
+    for key in set(final) | set(expected):
+        durs = expected.get(key, [])
+        have = final.get(key)
+        if have is None:
+            problems.append((SIG_TL_OBS, '%s: %d observations expected, the child does not exist' % (key, len(durs))))
+        elif isinstance(have, tuple):
+            if have != (len(durs), sum(durs)):
+                problems.append((SIG_TL_OBS, '%s: count/sum %s, the blocks that ended on it lasted %s' % (key, have, durs)))
+        elif have != (durs[-1] if durs else 0):
+            problems.append((SIG_TL_OBS, 'gauge %s holds %s, the blocks that ended on it lasted %s' % (key, have, durs)))
+    return problems, unl, expected
+
+
+def tl_enc_ref(ref):
+    if ref[0] == 'p':
+        return ['p', str(ref[1])]
+    if ref[0] == 'P':
+        ns = tl_names(ref[1])
+        return ['P', str(ref[1]), str(len(ns))] + [str(n) for n in ns]
+    return ['c', str(ref[1]), str(len(ref[2]))] + [str(v) for v in ref[2]]
+
+
+def tl_enc_out(o):
+    return ['r', str(o[1])] if o[0] == 'r' else ['x', str(o[1]), str(CLS_NO[o[2]])]
+
+
+def tl_enc_prog(prog):
+    toks = [str(len(prog))]
+    for st in prog:
+        if st[0] in ('L', 'D'):
+            toks += [st[0], str(st[1]), str(len(st[2]))] + [str(v) for v in st[2]] + [str(len(st[3]))]
+            for n, v in st[3]:
+                toks += [str(n), str(v)]
+        elif st[0] == 'W':
+            toks += ['W'] + tl_enc_ref(st[1]) + [str(tl_kind(st[1][1])), '1' if st[2] else '0'] + tl_enc_prog(st[3]) + tl_enc_out(st[4])
+        else:
+            toks += ['F', str(st[1]), '1' if st[2] else '0'] + tl_enc_prog(st[3]) + tl_enc_out(st[4])
+    return toks
+
+
+def tl_enc_case(case):
+    toks = [str(len(case['decos']))]
+    for ref in case['decos']:
+        toks += tl_enc_ref(ref) + [str(tl_kind(ref[1]))]
+    return ','.join(toks + tl_enc_prog(case['prog']) + tl_enc_out(case['out']))
+
+
+def tl_enc_got(g):
+    if g[0] == 'r':
+        return 'r:%s' % (0 if g[1] is None else getattr(g[1], 'i', None))
+    s = str(g[1].args[0]) if getattr(g[1], 'args', None) else ''
+    ident = int(s.split(' ')[1]) if s.startswith('exc ') else 0
+    return 'x:%d:%d' % (ident, CLS_NO.get(type(g[1]).__name__, -1))
+
+
+def tl_real_ref(metric):
+    i = int(metric._name[2:]) if metric._name.startswith('tl') else -1
+    if not metric._labelnames:
+        return 'p.%d' % i
+    if metric._labelvalues:
+        return '.'.join(['c', str(i)] + list(metric._labelvalues))
+    return '.'.join(['P', str(i)] + [str(TL_LNAMES.index(n)) for n in metric._labelnames])
+
+
+def run_tl_case(ctx, case, reqs, pend):
+    runner = TLRunner(case)
+    got = runner.run()
+    final = runner.w.read()
+    problems, unl, expected = tl_oracle(case, runner.events, got, final)
+    for sig, what in problems[:3]:
+        report(ctx, sig, what, case)
+    enc = tl_enc_case(case)
+    nlab = sum(1 for e in runner.events if e[0] == 'labels')
+    ctx.case(nontrivial_key=('tl', enc, tuple(case['clock'])) if nlab or unl else None,
+             sample={'program': enc, 'clock': case['clock'], 'observed': {'.'.join(map(str, k)): v for k, v in expected.items()}})
+    ctx.count('tl:blocks', runner.nb)
+    ctx.count('tl:labels-calls', nlab)
+    ctx.count('tl:labels-calls-raising', sum(1 for e in runner.events if e[0] == 'labels' and e[4][0] == 'x'))
+    ctx.count('tl:unlabelled-parent-raises-at-exit', unl)
+    ctx.count('tl:unlabelled-parent-replaces-body-exception',
+              sum(1 for e in runner.events if e[0] == 'end' and e[2][0] == 'x' and type(e[2][1]) is ValueError
+                  and isinstance(e[2][1].__context__, BaseException) and 'missing label values' in str(e[2][1])
+                  and str(e[2][1].__context__).startswith('exc ')))
+    reqs.append('c16 tl %s %s' % (enc, lib.enc_list([str(x) for x in case['clock']])))
+    ends = [tl_enc_got(e[2]) for e in runner.events if e[0] == 'end']
+    decos = [tl_real_ref(getattr(T, '_metric', None)) for T in runner.decos]
+    pend.append(('tl', case, tl_enc_got(got), final, ends, decos))
+
+
+def compare_tl(ctx, item, reply):
+    _, case, got, final, ends, decos = item
+    rep = reply.split(' ')
+    if rep[0] != 'ok':
+        ctx.diverge('driver: %s' % reply, case)
+        return
+    ctx.traces += 1
+    if rep[1] != got:
+        ctx.diverge('timer-labels outcome: model %s, implementation %s' % (rep[1], got), case)
+    agg = {}
+    for ent in lib_declist(rep[2]):
+        ref, k, d = ent.split(':')
+        parts = ref.split('.')
+        key = (parts[0], int(parts[1])) + tuple(parts[2:])
+        agg.setdefault(key, []).append(int(d))
+    real = {}
+    for key, have in final.items():
+        if isinstance(have, tuple):
+            if have[0]:
+                real[key] = (have[0], have[1])
+        elif have != 0 or key in agg:
+            real[key] = have
+    model = {}
+    for key, ds in agg.items():
+        model[key] = (len(ds), sum(ds)) if tl_kind(key[1]) == 1 else ds[-1]
+    for key in model:
+        if tl_kind(key[1]) == 0 and model[key] == 0 and key not in real:
+            real[key] = 0
+    if model != real:
+        ctx.diverge('timer-labels observations per child: model %s, implementation %s' % (sorted(model.items()), sorted(real.items())), case)
+    if lib_declist(rep[3]) != ends:
+        ctx.diverge('timer-labels block outcomes: model %s, implementation %s' % (rep[3], ';'.join(ends)), case)
+    if lib_declist(rep[4]) != decos:
+        ctx.diverge('decorator-level timers refer to: model %s, implementation %s' % (rep[4], ';'.join(decos)), case)
+
+
+def tl_gen_args(rng, ref_hint):
+    """labels() arguments: mostly valid for a parent with the hinted arity, by position or by keyword; some near misses"""
+    names = tl_names(ref_hint) or [0]
+    vals = [rng.randint(1, 4) for _ in names]
+    t = rng.random()
+    if t < 0.4:
+        return vals, []
+    if t < 0.8:
+        kw = [[n, v] for n, v in zip(names, vals)]
+        rng.shuffle(kw)
+        return [], kw
+    m = rng.randrange(5)
+    if m == 0:
+        return vals + [1], []
+    if m == 1:
+        return vals[:-1], []
+    if m == 2:
+        return [], [[2, 1]] + [[n, v] for n, v in zip(names, vals)][1:]
+    if m == 3:
+        return vals, [[names[0], 1]]
+    return [], [[n, v] for n, v in zip(names, vals)][:-1] if len(names) > 1 else [[1, 3]]
+
+
+def tl_gen_ref(rng):
+    t = rng.random()
+    if t < 0.7:
+        return ['P', rng.randrange(3)]
+    if t < 0.85:
+        return ['p', rng.choice([3, 4])]
+    m = rng.randrange(3)
+    return ['c', m, [rng.randint(1, 4) for _ in tl_names(m)]]
+
+
+def tl_gen_out(rng, ids):
+    ids[0] += 1
+    return ['r', ids[0]] if rng.random() < 0.6 else ['x', ids[0], rng.choice(CLASSES)]
+
+
+def tl_gen_prog(rng, depth, env, decos, ids, top=False):
+    """env: metric index of the timers bound by the enclosing with-blocks, innermost first"""
+    prog = []
+    for _ in range(rng.choice([1, 2, 3, 4] if top else [0, 1, 1, 2, 2, 3])):
+        t = rng.random()
+        if env and t < 0.45:
+            up = 0 if rng.random() < 0.75 else rng.randrange(len(env))
+            pos, kw = tl_gen_args(rng, env[up])
+            prog.append(['L', up, pos, kw])
+        elif decos and t < (0.6 if env else 0.3):
+            d = rng.randrange(len(decos))
+            pos, kw = tl_gen_args(rng, decos[d][1])
+            prog.append(['D', d, pos, kw])
+        elif depth < 3:
+            sw = rng.random() < (0.8 if top else 0.4)
+            if decos and rng.random() < 0.4:
+                d = rng.randrange(len(decos))
+                prog.append(['F', d, sw, tl_gen_prog(rng, depth + 1, env, decos, ids), tl_gen_out(rng, ids)])
+            else:
+                ref = tl_gen_ref(rng)
+                prog.append(['W', ref, sw, tl_gen_prog(rng, depth + 1, [ref[1]] + env, decos, ids), tl_gen_out(rng, ids)])
+    return prog
+
+
+def tl_count_blocks(prog):
+    return sum(1 + tl_count_blocks(st[3]) for st in prog if st[0] in ('W', 'F'))
+
+
+def gen_tl_case(rng):
+    decos = [tl_gen_ref(rng) for _ in range(rng.choice([0, 1, 1, 2]))]
+    ids = [0]
+    prog = tl_gen_prog(rng, 0, [], decos, ids, top=True)
+    return {'kind': 'tl', 'decos': decos, 'prog': prog, 'out': tl_gen_out(rng, ids), 'clock': gen_clock(rng, 2 * tl_count_blocks(prog) + 1)}
+
+
+def corpus_tl():
+    P0, P1, P2 = ['P', 0], ['P', 1], ['P', 2]
+    cases = [
+        # the documented usage: with HISTOGRAM.time() as t: …; t.labels('a') / t.labels(method='GET')
+        {'decos': [], 'prog': [['W', P0, False, [['L', 0, [1], []]], ['r', 1]]], 'out': ['r', 9], 'clock': [1, 4]},
+        {'decos': [], 'prog': [['W', P1, False, [['L', 0, [], [[1, 2], [0, 1]]]], ['r', 1]]], 'out': ['r', 9], 'clock': [1, 4]},
+        {'decos': [], 'prog': [['W', P2, False, [['L', 0, [], [[0, 3]]]], ['x', 1, 'KeyboardInterrupt']]], 'out': ['r', 9], 'clock': [7, 2]},
+        # never labelled: ValueError at exit; the body's return value is lost / the body's exception is replaced
+        {'decos': [], 'prog': [['W', P0, True, [], ['r', 1]], ['W', P0, True, [], ['x', 2, 'KeyError']]], 'out': ['r', 9], 'clock': [1, 4, 5, 9]},
+        # two labels() calls: the second raises inside the body, the observation goes to the first child
+        {'decos': [], 'prog': [['W', P0, True, [['L', 0, [1], []], ['L', 0, [2], []]], ['r', 1]]], 'out': ['r', 9], 'clock': [1, 4]},
+        # failing labels() (wrong count / wrong name / both kinds), then a good one
+        {'decos': [], 'prog': [['W', P1, True, [['W', ['p', 3], True, [['L', 1, [1], []]], ['r', 1]], ['L', 0, [], [[0, 1], [2, 2]]]], ['r', 2]],
+                               ['W', P1, True, [['W', ['p', 4], True, [['L', 1, [1], [[1, 2]]]], ['r', 3]], ['L', 0, [1, 2], []]], ['r', 4]]],
+         'out': ['r', 9], 'clock': [0, 1, 2, 3, 10, 11, 13, 17]},
+        # nesting: the inner block labels the outer timer by keyword and itself by position
+        {'decos': [], 'prog': [['W', P0, False, [['W', P1, True, [['L', 1, [], [[0, 3]]], ['L', 0, [4, 2], []]], ['x', 3, 'KeyboardInterrupt']]], ['r', 5]]],
+         'out': ['r', 9], 'clock': [0, 10, 9, 30]},
+        # labels() on a plain metric / a child: raises in the body, the block still observes
+        {'decos': [], 'prog': [['W', ['p', 3], True, [['L', 0, [1], []]], ['r', 1]], ['W', ['c', 0, [2]], True, [['L', 0, [3], []]], ['r', 2]]],
+         'out': ['r', 9], 'clock': [1, 2, 3, 5]},
+        # decorator: unlabelled call raises; T.labels(l=3) re-binds the later calls; a second T.labels raises
+        {'decos': [P0], 'prog': [['F', 0, True, [], ['r', 1]], ['D', 0, [], [[0, 3]]], ['F', 0, True, [], ['x', 2, 'SystemExit']],
+                                 ['F', 0, True, [['D', 0, [4], []]], ['r', 3]]], 'out': ['r', 9], 'clock': [0, 1, 10, 12, 20, 25]},
+        # the body of the first call labels the decorator-level timer: too late for that call, in time for the next
+        {'decos': [P2], 'prog': [['F', 0, True, [['D', 0, [1], []]], ['r', 1]], ['F', 0, False, [], ['r', 2]]], 'out': ['r', 9], 'clock': [0, 1, 10, 12]},
+        # recursion-like nesting of decorated calls with a labels() in between
+        {'decos': [P1, ['p', 4]], 'prog': [['D', 0, [1, 2], []], ['F', 0, False, [['F', 1, True, [['F', 0, False, [], ['r', 1]]], ['x', 2, 'GeneratorExit']]], ['r', 3]]],
+         'out': ['x', 4, 'ValueError'], 'clock': [5, 6, 7, 7, 3, 20]},
+    ]
+    for c in cases:
+        c['kind'] = 'tl'
+    return cases
+
 # ================================================================================================ corpus
 def F(name='f', posonly=(), pos=(), nd=0, varargs=None, kwonly=(), kwd=(), varkw=None, mkind='function', **kw):
     d = {'name': name, 'posonly': list(posonly), 'pos': list(pos), 'ndefaults': nd, 'varargs': varargs, 'kwonly': list(kwonly),
@@ -1112,6 +1558,8 @@ def run_batch(ctx, cases):
     for case in cases:
         if case['kind'] == 'sig':
             run_sig_case(ctx, case, reqs, pend)
+        elif case['kind'] == 'tl':
+            run_tl_case(ctx, case, reqs, pend)
         else:
             run_exec_case(ctx, case, reqs, pend)
     replies = ctx.driver.run(reqs)
@@ -1120,6 +1568,8 @@ def run_batch(ctx, cases):
     for item, reply in zip(pend, replies):
         if item[0] == 'sig':
             compare_sig(ctx, item, reply)
+        elif item[0] == 'tl':
+            compare_tl(ctx, item, reply)
         else:
             compare_exec(ctx, item, reply)
 
@@ -1194,7 +1644,12 @@ def run(ctx):
                 'still, falling, random walk, exhausted); sig: random ArgSpecs (0-2 positional-only, 0-3 positional, defaults, '
                 '*args, 0-2 keyword-only, kw-defaults, **kw, annotations, doc, function/method/classmethod/staticmethod) x 10 wrapper '
                 'kinds x 12 call shapes derived from the ArgSpec (8 meant to bind, 4 near misses); a case is non-trivial when the '
-                'tree has at least one wrapper or nested call / for sig always; distinct by (tree, clock) / (spec, call, wrapper)')
+                'tree has at least one wrapper or nested call / for sig always; distinct by (tree, clock) / (spec, call, wrapper); '
+                'tl: random Timer.labels programs (0-2 decorator-level timers and with-blocks on labelled Summary/Histogram/Gauge '
+                'parents, plain metrics and children; per block 0-3 statements out of t.labels()/T.labels() by position or keyword, '
+                'valid or wrong count/name/both kinds, on the own, an outer or the decorator-level timer, nested blocks and decorated '
+                'calls to depth 3; bodies return or raise any of 8 classes, swallowed or not) x scripted clocks; non-trivial when a '
+                'labels() call ran or a block ended on a labelled parent')
     rng = ctx.rng
     quick = ctx.tier == 'quick'
     n_exec = 700 if quick else 12000
@@ -1204,8 +1659,13 @@ def run(ctx):
         n_sig *= 2
     labelled_parent_note(ctx)
     run_non_function_cases(ctx)
-    run_batch(ctx, corpus_exec() + corpus_sig())
+    run_batch(ctx, corpus_exec() + corpus_sig() + corpus_tl())
     cases = []
+    n_tl = 500 if quick else 8000
+    if ctx.broken:
+        n_tl *= 2
+    for i in range(n_tl):
+        cases.append(gen_tl_case(rng))
     for i in range(n_exec):
         ids = [0]
         tree = gen_call(rng, 0, ids, shared_ok=(i % 10 == 0), maxrec=4 if quick or i % 7 else 40)
@@ -1237,6 +1697,8 @@ def replay(ctx, case):
         return 1 if ctx.failures else 0
     if c['kind'] == 'sig':
         print('  generated:', spec_source(c['spec'])[0].split('\n')[0], ' wrapper:', c['wrapper'])
+    elif c['kind'] == 'tl':
+        print('  program:', tl_enc_case(c), ' clock:', c['clock'])
     else:
         print('  tree:', ','.join(enc_tree(c['tree'], [0])), ' clock:', c['clock'])
     run_batch(ctx, [c])
